@@ -604,7 +604,92 @@ static std::string chan_json(ares_channel_t *ch)
 struct Scn {
   std::map<int, ares_channel_t *> ch;
   std::string                     id;
+  bool                            virt = false; /* install the virtual interface table on every channel created */
 };
+
+// ---------------------------------------------------------------- virtual interfaces
+// Scenario flag "virt": every channel the scenario creates gets socket functions (ares_set_socket_functions_ex)
+// whose interface lookup knows, besides the real interfaces, "verylongiface01" (15 characters, the longest legal
+// name, index 77) and "vif2" (index 78).  The socket calls themselves are the plain system calls.
+static const char *VIF_LONG = "verylongiface01";
+static ares_socket_t vs_socket(int d, int t, int p, void *u)
+{
+  (void)u;
+  return socket(d, t, p);
+}
+static int vs_close(ares_socket_t s, void *u)
+{
+  (void)u;
+  return close(s);
+}
+static int vs_setsockopt(ares_socket_t s, ares_socket_opt_t opt, const void *val, ares_socklen_t len, void *u)
+{
+  (void)s;
+  (void)opt;
+  (void)val;
+  (void)len;
+  (void)u;
+  return 0;
+}
+static int vs_connect(ares_socket_t s, const struct sockaddr *a, ares_socklen_t l, unsigned int flags, void *u)
+{
+  (void)u;
+  (void)flags;
+  return connect(s, a, l);
+}
+static ares_ssize_t vs_recvfrom(ares_socket_t s, void *b, size_t l, int f, struct sockaddr *a, ares_socklen_t *al,
+                                void *u)
+{
+  (void)u;
+  return recvfrom(s, b, l, f, a, al);
+}
+static ares_ssize_t vs_sendto(ares_socket_t s, const void *b, size_t l, int f, const struct sockaddr *a,
+                              ares_socklen_t al, void *u)
+{
+  (void)u;
+  return sendto(s, b, l, f, a, al);
+}
+static unsigned int vs_nametoindex(const char *name, void *u)
+{
+  (void)u;
+  if (name == NULL)
+    return 0;
+  if (!strcmp(name, VIF_LONG))
+    return 77;
+  if (!strcmp(name, "vif2"))
+    return 78;
+  return if_nametoindex(name);
+}
+static const char *vs_indextoname(unsigned int idx, char *buf, size_t len, void *u)
+{
+  (void)u;
+  const char *n = idx == 77 ? VIF_LONG : idx == 78 ? "vif2" : NULL;
+  if (n != NULL) {
+    if (len < strlen(n) + 1)
+      return NULL;
+    strcpy(buf, n);
+    return buf;
+  }
+  if (len < IF_NAMESIZE)
+    return NULL;
+  return if_indextoname(idx, buf);
+}
+static void install_virt(ares_channel_t *c)
+{
+  static struct ares_socket_functions_ex f;
+  memset(&f, 0, sizeof(f));
+  f.version         = 1;
+  f.flags           = 0;
+  f.asocket         = vs_socket;
+  f.aclose          = vs_close;
+  f.asetsockopt     = vs_setsockopt;
+  f.aconnect        = vs_connect;
+  f.arecvfrom       = vs_recvfrom;
+  f.asendto         = vs_sendto;
+  f.aif_nametoindex = vs_nametoindex;
+  f.aif_indextoname = vs_indextoname;
+  ares_set_socket_functions_ex(c, &f, NULL);
+}
 
 static ares_channel_t *getch(Scn &S, const J &op, const char *k = "ch")
 {
@@ -743,7 +828,11 @@ static void run_op(Scn &S, size_t i, const J &op)
       rc = ares_init(&c);
     }
     if (rc == ARES_SUCCESS)
+    {
       S.ch[(int)op.num("ch")] = c;
+      if (S.virt)
+        install_virt(c);
+    }
     emit(head + ",\"rc\":" + jq(rcname(rc)) + (rc == ARES_SUCCESS ? ",\"obs\":" + chan_json(c) : std::string()) + "}");
   } else if (name == "set_servers_csv" || name == "set_servers_ports_csv") {
     ares_channel_t *c = getch(S, op);
@@ -824,8 +913,11 @@ static void run_op(Scn &S, size_t i, const J &op)
     ares_channel_t *c   = NULL;
     if (rc == ARES_SUCCESS) {
       rc2 = ares_init_options(&c, &o, mask);
-      if (rc2 == ARES_SUCCESS)
+      if (rc2 == ARES_SUCCESS) {
         S.ch[(int)op.num("dst")] = c;
+        if (S.virt)
+          install_virt(c);
+      }
     }
     ares_destroy_options(&o);
     emit(head + ",\"rc\":" + jq(rcname(rc)) + ",\"rc2\":" + jq(rc2 < 0 ? "-" : rcname(rc2)) +
@@ -858,6 +950,8 @@ static void run_op(Scn &S, size_t i, const J &op)
     std::string csv2 = "null";
     if (rc == ARES_SUCCESS) {
       S.ch[(int)op.num("dst")] = c;
+      if (S.virt)
+        install_virt(c);
       rc2                      = ares_set_servers_ports_csv(c, csv);
       char *t                  = ares_get_servers_csv(c);
       if (t)
@@ -946,7 +1040,8 @@ static void run_scenario(const std::string &line)
     emit("{\"id\":null,\"error\":\"bad scenario json\"}");
     return;
   }
-  S.id = sc->str("id");
+  S.id   = sc->str("id");
+  S.virt = sc->num("virt", 0) != 0;
 
   /* clean slate */
   for (const char *e : ENVS)
